@@ -20,12 +20,18 @@ LEVEL = "exploration"
 ENGINE = "reactors"
 TECHNIQUE = ("property-based stress testing (Hypothesis-generated workloads, real threads, real reactor in a subprocess, "
              "real local socket) with a stream-parsing oracle")
-RULE = ("a workload = 1-6 real threads (start barrier or not), each pushing 1-20 messages on one connection; message sizes "
+RULE = ("a workload = 1-6 pushers (start barrier or not), each pushing 1-20 messages on one connection; a pusher is a real "
+        "thread calling push(), or (about a third) the reactor's own thread calling push() from a scheduled callback as a "
+        "response callback does (asyncio call_soon_threadsafe / twisted callFromThread), optionally paced 1-5 ms between "
+        "pushes; 60% of the workloads run against a throttled peer (reads 512-8192 bytes every 0.5-2 ms for the first "
+        "32 KiB / 128 KiB / all bytes, SO_RCVBUF and SO_SNDBUF 2-16 KiB) so that the reactor's send is suspended inside "
+        "messages while further pushes arrive; message sizes "
         "are drawn from {1,2,3,7,100, 4094..4098, 8191..8193, 12287..12289, 16384, 65535..65537} and random sizes up to 20000 "
         "(out_buffer_size = 4096); transport AF_UNIX or loopback TCP for asyncio, loopback TCP for twisted.  Every message "
         "carries its (thread, sequence, offset) in its bytes, so the received stream is parsed exactly: whole messages, the "
         "multiset equals what was pushed, each thread's order preserved, nothing after the last message.  Non-trivial: "
-        ">= 2 threads and at least one message larger than out_buffer_size.")
+        ">= 2 pushers and at least one message larger than out_buffer_size, or a throttled peer with a push from the "
+        "reactor thread and >= 2 messages.")
 ASSUMPTIONS = [
     "the connection is brought up without a Cassandra handshake: a subclass overrides _send_options_message to only set "
     "connected_event; everything on the write path (push, _push_msg, handle_write, callFromThread/transport.write) is the driver's",
@@ -114,9 +120,11 @@ def s_workload(reactor):
 
         @st.composite
         def workload(draw):
-            n = draw(st.sampled_from([1, 2, 2, 3, 4, 6]))
+            slow = draw(st.sampled_from([False, False, True, True, True]))
+            n = draw(st.sampled_from([1, 2, 2, 3, 4, 6] if not slow else [1, 2, 2, 3, 3, 4]))
             threads = []
-            budget = 700000           # bytes per workload: keeps the real-thread runs modest
+            # bytes per workload: keeps the real-thread runs modest (a throttled peer takes ~1 ms per burst)
+            budget = 160000 if slow else 700000
             for _ in range(n):
                 cnt = draw(st.sampled_from([1, 2, 3, 5, 8, 20]))
                 sizes = []
@@ -125,8 +133,24 @@ def s_workload(reactor):
                     budget -= s
                     sizes.append(s)
                 threads.append(sizes)
-            return {"reactor": reactor, "threads": threads, "barrier": draw(st.sampled_from([True, True, False])),
-                    "transport": draw(st.sampled_from(["unix", "tcp"])) if reactor == "asyncio" else "tcp"}
+            case = {"reactor": reactor, "threads": threads, "barrier": draw(st.sampled_from([True, True, False])),
+                    "transport": draw(st.sampled_from(["unix", "tcp"])) if reactor == "asyncio" else "tcp",
+                    # which pushers are the reactor's own thread (push() called from a callback on the loop)
+                    "loop": [draw(st.sampled_from([False, False, True])) for _ in range(n)],
+                    # pause between a thread's pushes: pushes then arrive while earlier messages are in flight
+                    "pace_ms": [draw(st.sampled_from([0, 0, 1, 2, 5])) for _ in range(n)],
+                    "reader": None}
+            if slow:
+                # back-pressure: small socket buffers and a peer that reads in small bursts, so that the reactor's
+                # send is suspended in the middle of a message while further pushes arrive
+                case["reader"] = {"burst": draw(st.sampled_from([512, 2048, 8192])),
+                                  "pause_ms": draw(st.sampled_from([0.5, 1, 2])),
+                                  "slow_bytes": draw(st.sampled_from([32768, 131072, 10 ** 9])),
+                                  "rcvbuf": draw(st.sampled_from([2048, 4096, 16384])),
+                                  "sndbuf": draw(st.sampled_from([2048, 4096, 16384]))}
+                if not any(case["loop"]) and draw(st.booleans()):
+                    case["loop"][draw(st.integers(0, n - 1))] = True
+            return case
         return workload()
     return build
 
@@ -134,7 +158,8 @@ def s_workload(reactor):
 def interpret(case, ctx):
     reactor = case["reactor"]
     res = _worker(reactor).call({"threads": case["threads"], "barrier": case.get("barrier", True),
-                                 "transport": case.get("transport", "tcp")})
+                                 "transport": case.get("transport", "tcp"), "loop": case.get("loop") or [],
+                                 "pace_ms": case.get("pace_ms") or [], "reader": case.get("reader")})
     buf = res.get("out_buffer_size", 4096)
     threads = case["threads"]
     nmsg = sum(len(t) for t in threads)
@@ -147,6 +172,16 @@ def interpret(case, ctx):
         ctx.label(reactor + ":size-at-chunk-edge")
     if nmsg >= 20:
         ctx.label(reactor + ":>=20-messages")
+    if any(case.get("loop") or []):
+        ctx.label(reactor + ":push-from-loop-thread")
+        if not all(case["loop"]):
+            ctx.label(reactor + ":loop-thread+worker-threads")
+    if case.get("reader"):
+        ctx.label(reactor + ":throttled-peer")
+        if any(case.get("loop") or []):
+            ctx.label(reactor + ":throttled-peer+push-from-loop-thread")
+    if any(case.get("pace_ms") or []):
+        ctx.label(reactor + ":paced-pushes")
     st = ctx.stats
     st.extra["messages_pushed"] = st.extra.get("messages_pushed", 0) + nmsg
     st.extra["bytes_pushed"] = st.extra.get("bytes_pushed", 0) + res.get("expected", 0)
@@ -166,7 +201,7 @@ def interpret(case, ctx):
         st.inconclusive += 1
         ctx.label("%s:inconclusive:%s" % (reactor, status))
         _drop_worker(reactor)
-    ctx.nontrivial(len(threads) >= 2 and big)
+    ctx.nontrivial((len(threads) >= 2 and big) or (bool(case.get("reader")) and any(case.get("loop") or []) and nmsg >= 2))
 
 
 def _interp(reactor):
